@@ -1,0 +1,19 @@
+// SPDX-FileCopyrightText: The go-mail Authors
+//
+// SPDX-License-Identifier: MIT
+
+//go:build verif
+
+package smtp
+
+// VerifHook is installed by the verification harness (build tag verif only). It is called at the
+// points where a goroutine is about to enter a critical section of the Client: before a command
+// is sent ("cmd.pre"), before message content is written ("data.write") and before the DATA
+// section is closed ("data.close"). The hook may block: the harness uses it as a scheduler gate.
+var VerifHook func(event string, detail string)
+
+func verifHook(event string, detail string) {
+	if h := VerifHook; h != nil {
+		h(event, detail)
+	}
+}
